@@ -1122,7 +1122,7 @@ def plan(tier, seed):
             "exhaustive": False,
             "field_cap": 24,
         },
-        "hard_timeout_s": 900,
+        "hard_timeout_s": 2400,
     }
 
 
